@@ -209,8 +209,13 @@ class RandInfoBuilder(ModelVisitor,RandIF):
                 for s in self._active_order_randset_s:
                     s.add_constraint(c)
             else:
-#                print("TODO: handle no-reference constraint: " + str(c_blk.name))
-                pass
+                # The statement references no field (e.g. a foreach body 
+                # on the index only, once expanded). It still has to hold: 
+                # give it a rand set of its own, so that it is solved
+                rs = RandSet()
+                self._randset_m[rs] = len(self._randset_l)
+                self._randset_l.append(rs)
+                rs.add_constraint(c)
         super().visit_constraint_stmt_leave(c)
         
     def visit_constraint_dynref(self, c):
